@@ -8,16 +8,31 @@ Record sworld := {
   s_life : lstate;
   s_hs : pvec entity;
   s_hl : list entity;
-  s_ok : bool }.               (* false once a choice was invalid or an unwrap failed *)
+  s_ok : bool;                 (* false once a choice was invalid or an unwrap failed *)
+  s_env : senv }.
 
-Definition s_init : sworld := {| s_life := l_init; s_hs := pv_empty; s_hl := []; s_ok := true |}.
+Definition s_init_env (ideal : bool) : sworld :=
+  {| s_life := l_init; s_hs := pv_empty; s_hl := []; s_ok := true; s_env := env_init ideal |}.
+Definition s_init : sworld := s_init_env false.
 
 Definition with_life (w : sworld) (s : lstate) : sworld :=
-  {| s_life := s; s_hs := s_hs w; s_hl := s_hl w; s_ok := s_ok w |}.
+  {| s_life := s; s_hs := s_hs w; s_hl := s_hl w; s_ok := s_ok w; s_env := s_env w |}.
 Definition s_push_h (w : sworld) (e : entity) : sworld :=
-  {| s_life := s_life w; s_hs := pv_push (s_hs w) e; s_hl := e :: s_hl w; s_ok := s_ok w |}.
+  {| s_life := s_life w; s_hs := pv_push (s_hs w) e; s_hl := e :: s_hl w; s_ok := s_ok w; s_env := s_env w |}.
 Definition s_fail (w : sworld) : sworld :=
-  {| s_life := s_life w; s_hs := s_hs w; s_hl := s_hl w; s_ok := false |}.
+  {| s_life := s_life w; s_hs := s_hs w; s_hl := s_hl w; s_ok := false; s_env := s_env w |}.
+Definition s_with_env (w : sworld) (e : senv) : sworld :=
+  {| s_life := s_life w; s_hs := s_hs w; s_hl := s_hl w; s_ok := s_ok w; s_env := e |}.
+
+Definition l_view (s : lstate) : aview :=
+  {| av_alive := l_is_alive s; av_cur_gen := fun i => snd (l_entity_at s i); av_err_gen := l_err_gen s |}.
+
+Definition s_insert_comps (w : sworld) (e : entity) (cs : comps) : sworld :=
+  s_with_env w (env_insert_comps (s_env w) (l_view (s_life w)) e cs).
+
+Definition s_purge_killed (w : sworld) (es : list entity) (r : option (nat * Z)) : sworld :=
+  let killed := match r with None => es | Some (pos, _) => firstn pos es end in
+  s_with_env w (env_delete_components (s_env w) killed).
 
 Definition s_create (pend : bool) (w : sworld) (i : N) : sworld * entity :=
   let ok := valid_choice (s_life w) i in
@@ -42,25 +57,28 @@ Definition s_builder_drop (w : sworld) (e : entity) : sworld :=
 
 Definition hd_choice (cs : list N) : N := match cs with i :: _ => i | [] => 0 end.
 
-Definition sstep (w : sworld) (o : op) (cs : list N) : sworld * wout :=
+Definition sstep (w0 : sworld) (o : op) (cs : list N) : sworld * wout :=
+  let w := s_with_env w0 (env_begin (s_env w0)) in
   match o with
-  | OCreate _ => let '(w1, e) := s_create false w (hd_choice cs) in (w1, WHandles [e])
-  | OCreateDropped _ => let '(w1, e) := s_create false w (hd_choice cs) in (s_builder_drop w1 e, WHandles [e])
+  | OCreate k => let '(w1, e) := s_create false w (hd_choice cs) in (s_insert_comps w1 e k, WHandles [e])
+  | OCreateDropped k =>
+      let '(w1, e) := s_create false w (hd_choice cs) in (s_builder_drop (s_insert_comps w1 e k) e, WHandles [e])
   | OCreateIter n => let '(w1, l) := s_create_n false n w cs in (w1, WHandles l)
   | OECreate => let '(w1, e) := s_create true w (hd_choice cs) in (w1, WHandles [e])
   | OECreateIter n => let '(w1, l) := s_create_n true n w cs in (w1, WHandles l)
-  | OEBuild built _ =>
+  | OEBuild built k =>
       let '(w1, e) := s_create true w (hd_choice cs) in
-      ((if built then w1 else s_builder_drop w1 e), WHandles [e])
+      let w2 := s_insert_comps w1 e k in
+      ((if built then w2 else s_builder_drop w2 e), WHandles [e])
   | OLazyCreate _ => let '(w1, e) := s_create true w (hd_choice cs) in (w1, WHandles [e])
   | ODelete h =>
       match hget (s_hs w) h with
-      | Some e => let '(s', r) := l_kill_res (s_life w) [e] in (with_life w s', WKill r)
+      | Some e => let '(s', r) := l_kill_res (s_life w) [e] in (s_purge_killed (with_life w s') [e] r, WKill r)
       | None => (w, WSkip)
       end
   | ODeleteMany hs =>
       match hget_all (s_hs w) hs with
-      | Some es => let '(s', r) := l_kill_res (s_life w) es in (with_life w s', WKill r)
+      | Some es => let '(s', r) := l_kill_res (s_life w) es in (s_purge_killed (with_life w s') es r, WKill r)
       | None => (w, WSkip)
       end
   | OEDelete h =>
@@ -73,8 +91,12 @@ Definition sstep (w : sworld) (o : op) (cs : list N) : sworld * wout :=
   | ODeleteAll =>
       let es := l_entities (s_life w) in
       let '(s', r) := l_kill_res (s_life w) es in
-      ((match r with None => with_life w s' | Some _ => s_fail (with_life w s') end), WEnts es)
-  | OMaintain => let '(s', _) := l_merge (s_life w) in (with_life w s', WUnit)
+      let w1 := s_purge_killed (with_life w s') es r in
+      ((match r with None => w1 | Some _ => s_fail w1 end), WEnts es)
+  | OMaintain =>
+      let '(s', deleted) := l_merge (s_life w) in
+      let w1 := with_life w s' in
+      ((match deleted with [] => w1 | _ => s_with_env w1 (env_delete_components (s_env w1) deleted) end), WUnit)
   | OIsAlive h =>
       match hget (s_hs w) h with
       | Some e => (w, WBool (l_is_alive (s_life w) e))
@@ -92,6 +114,9 @@ Definition sstep (w : sworld) (o : op) (cs : list N) : sworld * wout :=
       | None => (w, WSkip)
       end
   | OProbeAll => (w, WBools (rev (map (l_is_alive (s_life w)) (s_hl w))))
+  | OStore so =>
+      let '(e', out) := env_sop (s_env w) (l_view (s_life w)) (s_hs w) so in (s_with_env w e', out)
+  | ODropWorld => (s_with_env w (env_drop_world (s_env w)), WUnit)
   | OBad => (w, WSkip)
   end.
 
